@@ -85,6 +85,8 @@ pub uninterp spec fn pathbuf_str(p: std::path::PathBuf) -> Seq<char>;
 pub uninterp spec fn asref_path_str<P>(p: P) -> Seq<char>;
 pub broadcast axiom fn axiom_asref_pathbuf(p: std::path::PathBuf)
     ensures #[trigger] asref_path_str::<std::path::PathBuf>(p) == pathbuf_str(p);
+/// what `convert_file_path` makes of a request file name (uninterpreted)
+pub uninterp spec fn convert_spec(filename: Seq<char>) -> Seq<char>;
 /// `base.join(rel)` on path texts
 pub uninterp spec fn join_str(base: Seq<char>, rel: Seq<char>) -> Seq<char>;
 /// a file exists at this path / its length
@@ -318,7 +320,7 @@ pub assume_specification<'a, T>[ <&'a mut [T] as core::iter::IntoIterator>::into
         r.remaining().len() == old(s)@.len(),
         final(s)@.len() == old(s)@.len(),
         forall|i: int| 0 <= i < old(s)@.len() ==> *(#[trigger] r.remaining()[i]) == old(s)@[i],
-        forall|i: int| 0 <= i < old(s)@.len() ==> *final(#[trigger] r.remaining()[i]) == final(s)@[i];
+        forall|i: int| #![trigger final(s)@[i]] #![trigger r.remaining()[i]] 0 <= i < old(s)@.len() ==> *final(r.remaining()[i]) == final(s)@[i];
 
 /// ASSUMPTION: iterating `&VecDeque` yields references to its elements in order (mirrors vstd's spec of `iter()`).
 pub assume_specification<'a, T, A: core::alloc::Allocator>[ <&'a VecDeque<T, A> as core::iter::IntoIterator>::into_iter ](v: &'a VecDeque<T, A>) -> (r: std::collections::vec_deque::Iter<'a, T>)
@@ -552,6 +554,73 @@ pub proof fn lemma_wire_succ(bn: u16, i: int)
     requires i >= 0,
     ensures wire(bn + i + 1) == wire(wire(bn + i) + 1), wire(bn + 0) == bn,
 {
+}
+
+// ---- option negotiation (C09) ---------------------------------------------------------------------
+
+/// SPECIFICATION: the values the server can honour (RFC 2348 / 2349 / 7440)
+pub open spec fn opt_valid(o: TransferOption) -> bool {
+    match o.option {
+        OptionType::BlockSize => 8 <= o.value <= 65464,
+        OptionType::Timeout => 1 <= o.value <= 255,
+        OptionType::Windowsize => 1 <= o.value <= 65535,
+        OptionType::TransferSize => true,
+    }
+}
+pub open spec fn opts_valid(s: Seq<TransferOption>) -> bool {
+    forall|i: int| 0 <= i < s.len() ==> opt_valid(#[trigger] s[i])
+}
+/// value of the last option of type `t` in the list
+pub open spec fn opt_last(s: Seq<TransferOption>, t: OptionType) -> Option<usize>
+    decreases s.len()
+{
+    if s.len() == 0 { None }
+    else if s.last().option == t { Some(s.last().value) }
+    else { opt_last(s.drop_last(), t) }
+}
+pub open spec fn opt_or(o: Option<usize>, d: usize) -> usize { match o { Some(v) => v, None => d } }
+
+pub proof fn lemma_opt_last_step(s: Seq<TransferOption>, i: int, t: OptionType)
+    requires 0 <= i < s.len(),
+    ensures opt_last(s.subrange(0, i + 1), t) == (if s[i].option == t { Some(s[i].value) } else { opt_last(s.subrange(0, i), t) }),
+{
+    assert(s.subrange(0, i + 1).drop_last() =~= s.subrange(0, i));
+}
+/// SPECIFICATION: what the server echoes: the request's options, tsize replaced by the file size on a read
+pub open spec fn opt_echo(o: TransferOption, read_size: Option<u64>) -> TransferOption {
+    match (o.option, read_size) {
+        (OptionType::TransferSize, Some(sz)) => TransferOption { option: o.option, value: sz as usize },
+        _ => o,
+    }
+}
+pub open spec fn opts_echo(s: Seq<TransferOption>, read_size: Option<u64>) -> Seq<TransferOption> {
+    Seq::new(s.len(), |i: int| opt_echo(s[i], read_size))
+}
+
+// ---- the listener's ghost log (C03, C05, C06, C09, C12) --------------------------------------------
+
+pub enum XferKind { Send, Receive }
+
+/// observable effects of the listener: datagrams from the listening socket, datagrams on a fresh transfer
+/// socket (OACK / ACK 0), transfers started (the only code that opens, creates or deletes files runs inside a
+/// spawned Worker), datagrams forwarded to a running transfer
+pub enum SEv {
+    SentTo { pkt: PktV, to: std::net::SocketAddr },
+    Sent { pkt: PktV },
+    Spawned { kind: XferKind, path: Seq<char>, blk: usize, tmo: std::time::Duration, ws: u16, rep: u8, check: bool, clean: bool },
+    Routed { pkt: PktV, to: std::net::SocketAddr },
+}
+
+pub tracked struct STrace {
+    pub ghost ev: Seq<SEv>,
+    /// length of `ev` when the datagram being handled was received, and that datagram (`None`: nothing decodable)
+    pub ghost iter_start: nat,
+    pub ghost cur: Option<(PktV, std::net::SocketAddr)>,
+}
+
+/// exactly one datagram: ERROR `code` to `to` from the listening socket, nothing else
+pub open spec fn refusal(evs: Seq<SEv>, code: ErrorCode, to: std::net::SocketAddr) -> bool {
+    evs.len() == 1 && (evs[0] matches SEv::SentTo { pkt: PktV::Error { code: c, .. }, to: t } && c == code && t == to)
 }
 
 /// distance on the wire from block number `bn` forward to `a`
